@@ -1,6 +1,305 @@
+/-
+  C10 — `Table.concat` / `biom.concat`: concatenation places every operand's block unchanged and
+  pads with zeros.
+
+  Model of biom/table.py `concat` as written:
+    * `others` may be one table or a list; `all_tables = [self] + others`;
+    * one loop in operand order: DisjointIDError as soon as an operand has an ID of the
+      concatenation axis that an EARLIER operand had (duplicates inside one operand are not looked
+      at); in the same loop the other-axis IDs are collected together with the metadata entry of
+      the first operand that shows each of them;
+    * common order of the other axis = `sorted(set of all other-axis IDs)`;
+    * per operand: if it lacks other-axis IDs, a zero block is stacked behind its matrix, the
+      missing IDs (with their first-seen metadata) are appended and a new table is constructed;
+      then, unless its other-axis IDs already equal the common order, `sort_order` re-indexes it
+      (`fancy = [index(i) for i in order]`, matrix and metadata taken at `fancy`);
+    * stacking of the matrices, concatenation of the axis IDs and of the axis metadata
+      (`[None] * n` for an operand without), other-axis metadata from the first padded operand;
+    * every constructed table passes through the constructor's metadata normalisation
+      (all entries falsy → `None`).
+
+  The matrix is seen through an *oriented view*: one vector per ID of the concatenation axis, each
+  indexed like the other axis.  For `axis='observation'` the vectors are the rows, for
+  `axis='sample'` the columns; `vstack`/`hstack`/fancy indexing of scipy are parameters whose
+  contract is exactly that reading (append vectors / extend every vector / re-index every vector).
+  The order in which Python iterates the set of missing IDs is not fixed by the language; the
+  model uses the common order restricted to the missing IDs, and `padSort_missing_order`
+  (Props) shows that any other order gives the same operand after the re-indexing.
+-/
 import BiomModel.Codec
 open Lean
+
 namespace Biom.C10
-/-- stub: not built yet -/
-def handle (_req : Json) : Codec.R Json := .error "C10: model not built yet"
+
+variable {α β γ : Type}
+
+/-! ### small total helpers -/
+
+/-- all-or-nothing map (a raise inside a comprehension aborts the whole statement) -/
+def mapO (f : β → Option γ) : List β → Option (List γ)
+  | [] => some []
+  | x :: xs =>
+    match f x, mapO f xs with
+    | some y, some ys => some (y :: ys)
+    | _, _ => none
+
+def mapE (f : β → Except Err γ) : List β → Except Err (List γ)
+  | [] => .ok []
+  | x :: xs =>
+    match f x with
+    | .error e => .error e
+    | .ok y =>
+      match mapE f xs with
+      | .error e => .error e
+      | .ok ys => .ok (y :: ys)
+
+/-- numpy fancy indexing `xs[fancy]`, bounds-checked -/
+def gather (xs : List β) (fancy : List Nat) : Option (List β) := mapO (fun j => xs[j]?) fancy
+
+/-- what the constructor makes of a metadata argument: a list whose entries are all falsy
+(`None`, `{}`; both are the empty entry here) becomes `None` -/
+def normMd : Option (List Md) → Option (List Md)
+  | none => none
+  | some l => if l.all (fun m => m.isEmpty) then none else some l
+
+/-- Python `sorted` on strings (code-point order) -/
+def sortIds (l : List Id) : List Id := l.mergeSort (fun a b => decide (a ≤ b))
+
+/-! ### oriented view -/
+
+structure View (α : Type) where
+  /-- IDs of the concatenation axis -/
+  aids : List Id
+  /-- IDs of the other axis -/
+  oids : List Id
+  /-- one vector per `aids` entry, indexed like `oids` -/
+  vecs : List (List α)
+  amd : Option (List Md)
+  omd : Option (List Md)
+  deriving Repr, DecidableEq
+
+def viewOf (ax : Axis) (t : Table α) : View α :=
+  match ax with
+  | .obs => { aids := t.obs, oids := t.samp, vecs := t.rows, amd := t.omd, omd := t.smd }
+  | .samp => { aids := t.samp, oids := t.obs, vecs := transposeGrid t.samp.length t.rows,
+               amd := t.smd, omd := t.omd }
+
+def tableOf (ax : Axis) (ty : Option String) (v : View α) : Table α :=
+  match ax with
+  | .obs => { obs := v.aids, samp := v.oids, rows := v.vecs, omd := v.amd, smd := v.omd, ttype := ty }
+  | .samp => { obs := v.oids, samp := v.aids, rows := transposeGrid v.oids.length v.vecs,
+               omd := v.omd, smd := v.amd, ttype := ty }
+
+/-- `table.metadata(i, axis=invaxis)`: the entry of `i`, the empty entry when the axis has none -/
+def entryOf (v : View α) (i : Id) : Md :=
+  match v.omd with
+  | none => []
+  | some m => (lookupBy v.oids m i).getD []
+
+/-! ### the first loop: disjointness and collection -/
+
+/-- `seen` = concatenation-axis IDs of the operands visited so far; `inv` = other-axis IDs seen so
+far, each with the metadata entry of the operand that showed it first -/
+def scan : List (View α) → List Id → List (Id × Md) → Except Err (List (Id × Md))
+  | [], _, inv => .ok inv
+  | v :: rest, seen, inv =>
+    if v.aids.any (fun a => seen.contains a) then .error .disjointId
+    else
+      let fresh := v.oids.filter (fun i => !(inv.map (·.1)).contains i)
+      scan rest (seen ++ v.aids) (inv ++ fresh.map (fun i => (i, entryOf v i)))
+
+/-! ### the second loop: pad, then bring to the common order -/
+
+def missingOf (order : List Id) (v : View α) : List Id :=
+  order.filter (fun i => !v.oids.contains i)
+
+/-- the padded operand for a given enumeration `missing` of the missing IDs -/
+def padWith [Zero α] (first : List (Id × Md)) (missing : List Id) (v : View α) : View α :=
+  if missing.isEmpty then v
+  else
+    { aids := v.aids
+      oids := v.oids ++ missing
+      vecs := v.vecs.map (fun vec => vec ++ List.replicate missing.length 0)
+      amd := normMd v.amd
+      omd := normMd (some (v.omd.getD (List.replicate v.oids.length []) ++
+                           missing.map (fun i => (first.lookup i).getD []))) }
+
+def pad [Zero α] (order : List Id) (first : List (Id × Md)) (v : View α) : View α :=
+  padWith first (missingOf order v) v
+
+/-- `sort_order(order, axis=invaxis)` -/
+def reorder (order : List Id) (v : View α) : Except Err (View α) :=
+  match mapO (indexOf? v.oids) order with
+  | none => .error .unknownId
+  | some fancy =>
+    match mapO (fun vec => gather vec fancy) v.vecs,
+          (match v.omd with
+           | none => some none
+           | some m => (gather m fancy).map some) with
+    | some vecs, some omd =>
+      .ok { aids := v.aids, oids := order, vecs := vecs, amd := normMd v.amd, omd := normMd omd }
+    | _, _ => .error .index
+
+def sortIfNeeded (order : List Id) (p : View α) : Except Err (View α) :=
+  if p.oids = order then .ok p else reorder order p
+
+def padSort [Zero α] (order : List Id) (first : List (Id × Md)) (v : View α) : Except Err (View α) :=
+  sortIfNeeded order (pad order first v)
+
+/-- axis metadata entries of one padded operand as they enter `concat_md` -/
+def amdEntries (p : View α) : List Md := p.amd.getD (List.replicate p.vecs.length [])
+
+def concatViews [Zero α] (vs : List (View α)) : Except Err (View α) :=
+  match scan vs [] [] with
+  | .error e => .error e
+  | .ok first =>
+    let order := sortIds (first.map (·.1))
+    match mapE (padSort order first) vs with
+    | .error e => .error e
+    | .ok padded =>
+      .ok { aids := padded.flatMap (·.aids)
+            oids := order
+            vecs := padded.flatMap (·.vecs)
+            amd := normMd (some (padded.flatMap amdEntries))
+            omd := normMd (padded.head?.bind (·.omd)) }
+
+/-- `[self] + others` concatenated along `ax`; the type is inherited from `self` -/
+def concatAll [Zero α] (ax : Axis) (self : Table α) (others : List (Table α)) : Except Err (Table α) :=
+  match concatViews ((self :: others).map (viewOf ax)) with
+  | .error e => .error e
+  | .ok v => .ok (tableOf ax self.ttype v)
+
+/-! ### the two entry points -/
+
+inductive Others (α : Type) where
+  | single (t : Table α)
+  | list (ts : List (Table α))
+
+/-- `if isinstance(others, self.__class__): others = [others, ]` -/
+def Others.toList : Others α → List (Table α)
+  | .single t => [t]
+  | .list ts => ts
+
+def axisOf? (s : String) : Option Axis :=
+  if s = "sample" then some .samp else if s = "observation" then some .obs else none
+
+/-- `Table.concat(self, others, axis)` -/
+def concat [Zero α] (self : Table α) (others : Others α) (axis : String) : Except Err (Table α) :=
+  match axisOf? axis with
+  | none => .error .unknownAxis
+  | some ax => concatAll ax self others.toList
+
+/-- `biom.concat(tables, axis)` = `tables[0].concat(tables[1:], axis)` -/
+def biomConcat [Zero α] (tables : List (Table α)) (axis : String) : Except Err (Table α) :=
+  match tables with
+  | [] => .error .index
+  | t :: rest => concat t (.list rest) axis
+
+/-! ### The property, stated on observations only -/
+
+/-- value of (concatenation-axis ID `a`, other-axis ID `b`) -/
+def cellAx? (t : Table α) (ax : Axis) (a b : Id) : Option α :=
+  match ax with
+  | .obs => t.cell? a b
+  | .samp => t.cell? b a
+
+def total [Add α] [Zero α] (t : Table α) : α := sumL (t.rows.map sumL)
+
+/-- no ID of the axis occurs in two different operands -/
+def pairwiseDisjoint : List (List Id) → Bool
+  | [] => true
+  | x :: rest => rest.all (fun y => x.all (fun a => !y.contains a)) && pairwiseDisjoint rest
+
+/-- metadata entry of an ID; absent metadata reads as the empty entry -/
+def mdEntry (t : Table α) (ax : Axis) (a : Id) : Md := (t.mdOf? ax a).getD []
+
+def nodupB (l : List Id) : Bool :=
+  match l with
+  | [] => true
+  | x :: xs => !xs.contains x && nodupB xs
+
+structure Clauses where
+  refusal : Bool := true
+  shape : Bool := true
+  axisIds : Bool := true
+  otherIds : Bool := true
+  cells : Bool := true
+  axisMd : Bool := true
+  total : Bool := true
+
+def clauses [Add α] [Zero α] [DecidableEq α] (ax : Axis) (ts : List (Table α)) :
+    Except Err (Table α) → Clauses
+  | .error e =>
+    -- refused: only when two operands share an ID of the axis, and as DisjointID
+    { refusal := !pairwiseDisjoint (ts.map (·.ids ax)) && decide (e = .disjointId) }
+  | .ok r =>
+    let oth := ax.other
+    { refusal := pairwiseDisjoint (ts.map (·.ids ax))
+      shape := r.wfb
+      -- all operands' IDs in operand order
+      axisIds := decide (r.ids ax = ts.flatMap (·.ids ax))
+      -- the other axis carries the union of the operands' IDs, each once (order not fixed)
+      otherIds := nodupB (r.ids oth) &&
+        (r.ids oth).all (fun b => ts.any (fun t => (t.ids oth).contains b)) &&
+        ts.all (fun t => (t.ids oth).all (fun b => (r.ids oth).contains b))
+      -- every pair of IDs: the owning operand's value, zero where it lacks the other-axis ID
+      cells := ts.all (fun t => (t.ids ax).all (fun a => (r.ids oth).all (fun b =>
+        decide (cellAx? r ax a b =
+          some (if (t.ids oth).contains b then (cellAx? t ax a b).getD 0 else 0)) &&
+        (!(t.ids oth).contains b || (cellAx? t ax a b).isSome))))
+      -- metadata of the concatenated axis travels with its ID
+      axisMd := ts.all (fun t => (t.ids ax).all (fun a => decide (mdEntry r ax a = mdEntry t ax a)))
+      total := decide (total r = sumL (ts.map total)) }
+
+def Clauses.all (c : Clauses) : Bool :=
+  c.refusal && c.shape && c.axisIds && c.otherIds && c.cells && c.axisMd && c.total
+
+def holds [Add α] [Zero α] [DecidableEq α] (ax : Axis) (ts : List (Table α))
+    (out : Except Err (Table α)) : Bool := (clauses ax ts out).all
+
+/-! ### JSON glue -/
+open Codec
+
+def firstFailing (c : Clauses) : Verdict :=
+  allV [chk "refusal-iff-overlap" c.refusal, chk "result-shape" c.shape,
+        chk "axis-ids-operand-order" c.axisIds, chk "other-ids-union" c.otherIds,
+        chk "cell-block-or-zero" c.cells, chk "axis-metadata-travels" c.axisMd,
+        chk "grand-total" c.total]
+
+def asOutcome (j : Json) : R (Except Err (Table Rat)) :=
+  match optFld j "error" with
+  | some e => do pure (.error (asErr (← asStr e)))
+  | none => do pure (.ok (← asTable (← fld j "ok")))
+
+def outcomeToJson : Except Err (Table Rat) → Json
+  | .error e => errToJson e
+  | .ok t => Json.mkObj [("ok", tableToJson t)]
+
+/-- request: {"axis": str, "tables": [table…], "mode": "single"|"list", "entry": "method"|"module",
+             "result": {"ok": table} | {"error": name}} -/
+def handle (req : Json) : R Json := do
+  let axis ← strF req "axis"
+  let tables ← listF asTable req "tables"
+  let mode ← strFD req "mode" "list"
+  let entry ← strFD req "entry" "method"
+  let out ← asOutcome (← fld req "result")
+  let model ← (match entry, mode, tables with
+    | "module", _, ts => pure (biomConcat ts axis)
+    | _, "single", [t, o] => pure (concat t (.single o) axis)
+    | _, "single", _ => .error "mode single needs exactly two tables"
+    | _, _, t :: rest => pure (concat t (.list rest) axis)
+    | _, _, [] => .error "method entry needs a receiver" : R (Except Err (Table Rat)))
+  let mj := outcomeToJson model
+  let oj := outcomeToJson out
+  let agree := mj.compress == oj.compress
+  match axisOf? axis, tables with
+  | some ax, _ :: _ =>
+    let v := firstFailing (clauses ax tables out)
+    pure (Json.mkObj (verdictToJson v ++
+      [("model_holds", .bool (holds ax tables model)), ("agree", .bool agree), ("model", mj)]))
+  | _, _ =>
+    -- outside the property's domain (unknown axis / empty list): only the error class is compared
+    let v := chk "edge-error-class" agree
+    pure (Json.mkObj (verdictToJson v ++ [("model_holds", .bool true), ("agree", .bool agree), ("model", mj)]))
+
 end Biom.C10
